@@ -346,8 +346,28 @@ func checkAgainstModel(t tb, bc behContext, keyPrefix string) bool {
 			got := res[i]
 			i++
 			switch op.Op {
-			case "methods", "istagged", "getter", "must", "par":
+			case "methods", "istagged", "par":
 				continue // checked by the property-specific code
+			case "getter", "must":
+				// a generated getter is Get / GetInContext on the service named in Tag (a method the type does not have
+				// was not executed: nothing to compare, nothing to replay)
+				if got.Missing {
+					continue
+				}
+				exp := d.Exec(ref.ProbeOp{Op: "get", ID: op.Tag, Ctx: op.Ctx})
+				if exp.Skip {
+					ev.Get().Exclude("op-not-predicted")
+					continue
+				}
+				if op.Op == "must" && exp.Err != "" {
+					exp = ref.Exp{Panic: true}
+				}
+				if err := matchRes(exp, got, b); err != nil {
+					violation(t, keyPrefix+"getter:"+classifyMismatch(err.Error()), op.Op+" "+op.ID+": "+err.Error(), bc.One)
+					return false
+				}
+				ev.Get().Label("history:generated-getter-called")
+				continue
 			case "new":
 				d = ref.NewDI(bc.Merged, bc.M.Script.Env)
 				b = newBij()
